@@ -140,6 +140,7 @@ type VC struct {
 	pureApps        []PureApp
 	pureFacts       map[string]bool
 	abstractedLoops []string // loops cut with the invariant `true` (no invariant given)
+	abstractedCalls []string // calls of repository functions without a contract (effects havocked)
 	recording       map[string]string // heap var name -> sort, while recording accesses
 	opaqueSig       map[string][]string
 	opaqueSorts     map[string]string
